@@ -18,6 +18,8 @@ PLUGIN = os.path.join(HERE, "ch_plugin.py")
 _TEMPLATE = '''\
 import atexit, sys
 from {module} import {function} as _impl
+from vf.harness import isolate as _iso
+_iso.snapshot()
 _CNT = [0, 0]
 atexit.register(lambda: sys.stderr.write("VFCOUNT %d %d\\n" % (_CNT[0], _CNT[1])))
 
@@ -26,6 +28,7 @@ def twin({params}) -> str:
 {pre}
     post: _ != ""
     """
+    _iso.restore()
     return _impl({args})
 
 def job({params}) -> str:
@@ -34,6 +37,7 @@ def job({params}) -> str:
     post: _ == "" or _.startswith("~")
     """
     _CNT[0] += 1
+    _iso.restore()
     _r = _impl({args})
     if len(_r) == 0:
         _CNT[1] += 1
